@@ -8,7 +8,9 @@ def generate_all():
     import gen_radii
     import gen_tables
     import gen_centring
-    for name, fn in (("radii", gen_radii.generate), ("tables", gen_tables.generate), ("centring", gen_centring.generate)):
+    import gen_wyckoff_rule
+    for name, fn in (("radii", gen_radii.generate), ("tables", gen_tables.generate), ("centring", gen_centring.generate),
+                     ("wyckoff_rule", gen_wyckoff_rule.generate)):
         try:
             fn()
         except Exception as e:  # noqa
